@@ -469,6 +469,39 @@ Section DECODE.
   Qed.
 End DECODE.
 
+(* ---------------------------------------------------------------- histories: one body after another in one process *)
+Section HISTORY.
+  Variable fp : labels -> N.
+  Variable enc_len : labels -> Z.
+  Variable CS : Type.
+  Variable cache_add : CS -> Z -> N -> N -> CS * bool.
+  Variable threshold : Z.
+  Variable flush_limit : N.
+
+  Lemma decode_st_decode cache0 ttl b :
+    fst (decode_st fp enc_len CS cache_add threshold flush_limit cache0 ttl b) =
+    decode fp enc_len CS cache_add cache0 threshold flush_limit ttl b.
+  Proof.
+    unfold decode_st, decode. rewrite run_steps.
+    destruct (steps fp enc_len CS cache_add threshold ttl (empty_chunk, cache0) (calls_of flush_limit b)) as [o [st|]]; reflexivity.
+  Qed.
+
+  Definition step_faithful (req : N * body) (r : result) : Prop :=
+    exists cs, r = Done cs /\ Forall chunk_rect cs /\ rows_of cs = rows_spec fp (fst req) (entries_of (snd req)).
+
+  Lemma decode_history_faithful : forall reqs cache0,
+    Forall2 step_faithful reqs (decode_history fp enc_len CS cache_add threshold flush_limit cache0 reqs).
+  Proof.
+    induction reqs as [|[ttl b] r IH]; intros cache0; cbn [decode_history].
+    - constructor.
+    - pose proof (decode_st_decode cache0 ttl b) as Hd.
+      destruct (decode_st fp enc_len CS cache_add threshold flush_limit cache0 ttl b) as [res c1]. cbn [fst] in Hd.
+      constructor; [|apply IH].
+      destruct (decode_faithful_all fp enc_len CS cache_add cache0 threshold flush_limit ttl b) as [cs [H1 [H2 H3]]].
+      exists cs. subst res. cbn [fst snd]. tauto.
+  Qed.
+End HISTORY.
+
 Definition result_rows (r : result) : list row := match r with Done cs => rows_of cs | Panicked cs => rows_of cs end.
 
 (* ---------------------------------------------------------------- timestamps: no wrap inside the int64 range *)
